@@ -56,7 +56,8 @@ func verifWorld(env envs.Environment, queries ...contactql.QueryNode) (*verifAss
 		zzverif.Assert(g != nil, "query group did not validate")
 		groups = append(groups, g)
 	}
-	sa := &verifAssets{fields: fields, groups: flows.VerifGroupAssets(groups...), chans: flows.NewChannelAssets(nil)}
+	ga, groups := flows.VerifGroupAssets(env, fields, groups...)
+	sa := &verifAssets{fields: fields, groups: ga, chans: flows.NewChannelAssets(nil)}
 	return sa, groups
 }
 
